@@ -366,6 +366,19 @@ func init() {
 					}
 					if !member && g2.Chance(1, 3) {
 						sc.StoredInbox[ref] = ref + "/stored-inbox"
+					} else if member && g2.Chance(1, 2) {
+						// an addressed actor that is also a member of a remote
+						// collection is reached by both routes (stored inbox
+						// for the addressed actor, document inbox for the
+						// member); the stored inbox is then chosen EQUAL to
+						// the document's so that both readings of the
+						// stored-inbox clause agree - and that one inbox must
+						// still be delivered to once
+						if d, ok := sc.Remote[ref].Doc.(M); ok {
+							if in, ok := idOfValue(d["inbox"]); ok {
+								sc.StoredInbox[ref] = in
+							}
+						}
 					}
 				}
 				if g.Bool() {
